@@ -73,7 +73,8 @@ def queries(tier, kfs):
                             prof.append((n, looped, cache, bl, mk, '3.0' if (bl + (mk or 0)) % 2 else '0.7'))
     prof = [p + (0,) for p in prof]
     # apply_par path (blocks executed one after the other): must equal the sequential semantics
-    prof += [(4, 0, 1, 0b1001, None, '3.0', 2), (4, 0, 1, 0b0100, 0b0010, '3.0', 3), (3, 0, 1, 0, None, '3.0', 2), (4, 1, 1, 0b0001, 0b0100, '3.0', 4)]
+    prof += [(4, 0, 1, 0b1001, None, '3.0', 2), (4, 0, 1, 0b0100, 0b0010, '3.0', 3), (3, 0, 1, 0, None, '3.0', 2), (4, 1, 1, 0b0001, 0b0100, '3.0', 4),
+             (3, 0, 1, 0b001, None, '3.0', 4)]   # fewer nodes than workers
     if not quick:
         prof += [(5, 0, 1, 0b00010, None, '0.7', 2), (6, 0, 0, 0b100000, 0b000100, '3.0', 3), (4, 1, 0, 0, None, '0.7', 16)]
     for (n, looped, cache, bl, mk, sp, thr) in prof:
